@@ -12,7 +12,7 @@ Requests (one per line):
 * `from_slice [v,…]`            `EliasFano::from(&[..])`                 → `ok` | `panic`
 * `cbuilder n u`                `EliasFanoConcurrentBuilder::new`        → `ok` | `panic`
 * `cset i v`                    `EliasFanoConcurrentBuilder::set` (one thread) → `ok` | `panic` | `oob`
-* `build <backend>`             backend ∈ plain seq dict seqdict custom1 custom2 → `ok` | `panic`
+* `build <backend>`             backend ∈ plain seq dict seqdict custom1 custom2 custom3 → `ok` | `panic`
                                 (after `from_slice`: only `map_high_bits`)
 * `len`                         → `ok n`
 * `get i`                       → `ok v` | `panic`
@@ -39,7 +39,7 @@ namespace Sux.EF
 open Sux.Proto
 
 inductive Backend where
-  | plain | seq | dict | seqdict | custom1 | custom2
+  | plain | seq | dict | seqdict | custom1 | custom2 | custom3
 deriving Repr, DecidableEq
 
 def Backend.parse : String → Option Backend
@@ -49,6 +49,7 @@ def Backend.parse : String → Option Backend
   | "seqdict" => some .seqdict
   | "custom1" => some .custom1
   | "custom2" => some .custom2
+  | "custom3" => some .custom3
   | _ => none
 
 /-- `IndexedSeq` (+ `iter_from`) available -/
